@@ -78,6 +78,8 @@ namespace vf {
     const auto *cn = dynamic_cast<const Constant_AST_Node<Tr> *>(&n);
     const auto *cp = dynamic_cast<const Compiled_AST_Node<Tr> *>(&n);
     if (fr) out += ":FoldRight";
+    // Unused_Return_Fun_Call_AST_Node keeps the identifier Fun_Call; only its dynamic class differs
+    if (dynamic_cast<const Unused_Return_Fun_Call_AST_Node<Tr> *>(&n)) out += ":UnusedReturn";
     out += " t=" + hex(n.text);
     out += " l=" + std::to_string(n.location.start.line) + ":" + std::to_string(n.location.start.column) + "-" + std::to_string(n.location.end.line) + ":"
            + std::to_string(n.location.end.column);
